@@ -145,7 +145,9 @@ private theorem no_breaking_at (o n : SchemaD) (h : diffSchema o n 2 = []) (c : 
       ++ diffInputTypes o n) (hs : c.severity = 2) : False := by
   have : c ∈ diffSchema o n 2 := by
     unfold diffSchema
-    exact List.mem_filter.mpr ⟨hc, by simp [hs]⟩
+    refine List.mem_filter.mpr ⟨?_, by simp [hs]⟩
+    simp only [List.mem_append] at hc ⊢
+    rcases hc with ((((((((h | h) | h) | h) | h) | h) | h) | h) | h) <;> simp [h]
   exact not_mem_of_nil h c this
 
 /-- **Enum values are kept**: with no BREAKING change, every value of an enum present in both schemas
